@@ -135,8 +135,13 @@ def run(scn, H, execu):
     if not (v.ok and vb.ok):
         return H, out, st
     # -- operations: same success/failure
-    ra = [(r['op'], None if r['exc'] is None else r['exc'][0]) for r in H['ops']]
-    rb = [(r['op'], None if r['exc'] is None else r['exc'][0]) for r in HB['ops']]
+    def outcomes(hist, sc):
+        # an export with an injected I/O fault at a byte offset may or may
+        # not reach the fault depending on the printed digits: not compared
+        return [(r['op'], None if r['exc'] is None else r['exc'][0])
+                for r in hist['ops']
+                if not sc['schedule'][r['i']].get('fault')]
+    ra, rb = outcomes(H, scn), outcomes(HB, b)
     first_div = None
     if ra != rb:
         i = next(i for i, (x, y) in enumerate(zip(ra + [None], rb + [None]))
